@@ -27,7 +27,6 @@ func wgModels(ctx *core.Ctx, f func(i int, tm gen.Tagged) bool) {
 	extra = append(extra, gen.SameTargetModels()...)
 	extra = append(extra, gen.TuplesetListModels()...)
 	extra = append(extra, gen.SecondRouteModels()...)
-	extra = append(extra, gen.TTUPairModels()...)
 	// size sweeps: one dimension of the graph scaled (operands, relations, types on one tuple cycle, restrictions, chains of
 	// n hops, parent types, public types)
 	gsizes := []int{13, 33, 65}
@@ -36,6 +35,8 @@ func wgModels(ctx *core.Ctx, f func(i int, tm gen.Tagged) bool) {
 	}
 	extra = append(extra, gen.SweepModelsGraph(gsizes)...)
 	nSpecial := len(extra)
+	// two tuple-to-usersets under one operator (round 9): ordinary budgets, not thinned
+	extra = append(extra, gen.TTUPairModels()...)
 	// the cycle-rich families again under names a string operation could trip over (round 10): a thinned selection under the
 	// ordinary budgets (they are copies of models the special budgets have seen under their plain names)
 	{
@@ -63,7 +64,7 @@ func wgModels(ctx *core.Ctx, f func(i int, tm gen.Tagged) bool) {
 		if !ctx.Mine(j) {
 			continue
 		}
-		if !ctx.Thorough() && j >= nSpecial && j%4 != 0 && !strings.HasPrefix(tm.Tag, "renamed(") {
+		if !ctx.Thorough() && j >= nSpecial && j%4 != 0 && !strings.HasPrefix(tm.Tag, "renamed(") && !strings.HasPrefix(tm.Tag, "ttu-pair:") {
 			continue // quick: every 4th of the three-relation and nested families
 		}
 		if ctx.Expired() {
@@ -71,8 +72,9 @@ func wgModels(ctx *core.Ctx, f func(i int, tm gen.Tagged) bool) {
 			return
 		}
 		wgSpecial = j < nSpecial
+		wgLight = strings.HasPrefix(tm.Tag, "renamed(")
 		cont := f(j, tm)
-		wgSpecial = false
+		wgSpecial, wgLight = false, false
 		if !cont {
 			return
 		}
@@ -113,6 +115,10 @@ var wgAssume = []string{
 	"operator nodes are matched to rewrite positions structurally (ordered traversal), never by their random ULID labels",
 }
 
+// wgLight: the model is a renamed copy of one explored under its plain names; it is built under the default schedule and from
+// every first start node only.
+var wgLight bool
+
 // pinTypes pins type and wildcard nodes at the root site.
 func pinTypes(rg *ref.WG) {
 	inert := map[string]bool{}
@@ -133,7 +139,7 @@ func wgExploreAllTagged(ctx *core.Ctx, tag string, m *ref.Model, rg *ref.WG, vis
 	pm := ref.ToProto(m)
 	nRoots := wgRoots(rg)
 	ok := true
-	if nRoots > 12 || len(rg.Order) > 30 {
+	if nRoots > 12 || len(rg.Order) > 30 || wgLight {
 		// a large graph (the size sweeps): the default schedule and every FIRST start node of the weight assignment (the first
 		// depth-first search covers what it reaches; later starts and the inner maps follow the default order)
 		var o *wgObs
